@@ -50,6 +50,13 @@ RULE_FILES = {"EqualRule": "rules/equal.rs", "EqualNoEolRule": "rules/no_eol.rs"
               "RegexRule": "rules/regex.rs", "GlobRule": "rules/glob.rs"}
 
 
+def default_cfg(cram):
+    """the format's default test-case configuration (the generators may consult it, e.g. which stream is validated)"""
+    return mk_struct("TestCaseConfig", detached=none(), environment=MapBuf([]), keep_crlf=some(SBool(cram)),
+                     output_stream=some(Agg("OutputStreamControl", "Combined" if cram else "Stdout", [])),
+                     skip_document_code=none(), strip_ansi_escaping=none(), timeout=none(), wait=none())
+
+
 def drive(ctx, args):
     """generate_testcase(outcome with one unexpected line L) → LineParser over the generated lines"""
     prog = ctx.program
@@ -59,7 +66,7 @@ def drive(ctx, args):
     diff = mk_struct("Diff", lines=VecBuf([diff_line]), count_matched=mk_int(0, "usize"), count_unmatched=mk_int(0, "usize"),
                      count_output_lines=mk_int(1, "usize"))
     tc = mk_struct("TestCase", title=StringBuf([]), shell_expression=StringBuf(cmd), expectations=VecBuf([]), exit_code=none(),
-                   line_number=mk_int(1, "usize"), config=Opaque("config"))
+                   line_number=mk_int(1, "usize"), config=default_cfg(bool(cram.v)))
     out = mk_struct("Output", stderr=Agg("OutputStream", None, [VecBuf([], "u8")]), stdout=Agg("OutputStream", None, [VecBuf(list(line_bytes.items), "u8")]),
                     exit_code=Agg("ExitStatus", "Code", [mk_int(0, "i32")]))
     outcome = mk_struct("Outcome", location=none(), output=out, testcase=tc, format=Opaque("format"), escaping=escaper,
@@ -261,7 +268,7 @@ def h_generated_multi(mode, cram):
         diff = mk_struct("Diff", lines=VecBuf(diff_lines), count_matched=mk_int(0, "usize"), count_unmatched=mk_int(0, "usize"),
                          count_output_lines=mk_int(len(lines), "usize"))
         tc = mk_struct("TestCase", title=StringBuf([]), shell_expression=StringBuf([SInt(ord(c), "char") for c in "cmd"]), expectations=VecBuf(old_expectations),
-                       exit_code=none(), line_number=mk_int(1, "usize"), config=Opaque("config"))
+                       exit_code=none(), line_number=mk_int(1, "usize"), config=default_cfg(bool(cram_.v)))
         out = mk_struct("Output", stderr=Agg("OutputStream", None, [VecBuf([], "u8")]), stdout=Agg("OutputStream", None, [VecBuf(out_bytes, "u8")]),
                         exit_code=Agg("ExitStatus", "Code", [mk_int(0, "i32")]))
         outcome = mk_struct("Outcome", location=none(), output=out, testcase=tc, format=Opaque("format"), escaping=escaper,
